@@ -580,13 +580,22 @@ def witness_search(tier, seed):
                 return dict(input=f"listing {lst}", detail="two files of one kind and no DuplicateSimfileError")
             except DuplicateSimfileError:
                 pass
+            # with duplicates ignored, the first listed file of each kind is kept
+            sdi = SimfileDirectory("d", filesystem=mem2, ignore_duplicate=True)
+            first = {ext: next(("d/" + nm for nm in lst if nm.lower().endswith(ext)), None) for ext in (".sm", ".ssc")}
+            if (sdi.sm_path, sdi.ssc_path) != (first[".sm"], first[".ssc"]):
+                return dict(input=f"listing {lst}, ignore_duplicate=True",
+                            detail=f"sm_path={sdi.sm_path} ssc_path={sdi.ssc_path}; the first listed of each kind are {first['.sm']} and {first['.ssc']}")
         open(os.path.join(pack, "song1", "b.sm"), "w").write("#TITLE:two;")
         try:
             SimfileDirectory(os.path.join(pack, "song1"))
             return dict(input="two .sm files", detail="no DuplicateSimfileError")
         except DuplicateSimfileError:
             pass
-        SimfileDirectory(os.path.join(pack, "song1"), ignore_duplicate=True)
+        sdi = SimfileDirectory(os.path.join(pack, "song1"), ignore_duplicate=True)
+        firstsm = next(nm for nm in os.listdir(os.path.join(pack, "song1")) if nm.lower().endswith(".sm"))
+        if os.path.basename(sdi.sm_path or "") != firstsm:
+            return dict(input="two .sm files, ignore_duplicate=True", detail=f"sm_path={sdi.sm_path}, the first listed is {firstsm}")
         try:
             SimfileDirectory(os.path.join(pack, "empty")).open()
             return dict(input="directory without simfile", detail="open() did not raise FileNotFoundError")
